@@ -1,5 +1,19 @@
 """C07 check configuration (data only)."""
+import importlib.util
+import os
+
 from propbase import KERNEL, HARNESS
+
+_root = os.path.dirname(os.path.dirname(os.path.abspath(__file__)))
+_spec_rh = importlib.util.spec_from_file_location("tools_releaseholds", os.path.join(_root, "tools", "releaseholds.py"))
+_rh = importlib.util.module_from_spec(_spec_rh)
+_spec_rh.loader.exec_module(_rh)
+
+
+def _release(ctx):
+    """thorough tier: the same cases through a --release build, the window predicate evaluated on its observations"""
+    return _rh.release_holds(ctx, ['c07'], 3000, PROP['shard'])
+
 
 PROP = {'gen': [],
  'coq_props': ['theories/Props/C07.vo'],
@@ -22,7 +36,8 @@ PROP = {'gen': [],
  'technique': 'Coq proof (representation invariant by induction over the view chain; nia/lia; NoDup of handed-out offsets) + '
               'model/implementation correspondence',
  'design_ref': 'DESIGN.md 6.7',
- 'n_quick': 1500,
+ 'extra': [_release],
+ 'n_quick': 2500,
  'n_thorough': 30000,
  'shard': 100,
  'level': 'proof',
@@ -33,6 +48,8 @@ PROP = {'gen': [],
                   'Rust harness (generators, canonical printing of observations) and the case files it writes; differential testing '
                   'validates the model, it is not the theorem'],
  'assumptions': ['root surfaces have height, width <= i64::MAX and a backing vector of at least H*W elements (SurfaceOwned::new/new_with)',
+                 'the correspondence run uses the debug profile; the release profile is cross-checked in the thorough tier by '
+                 'evaluating the window predicate on the observations of a --release build (tools/releaseholds.py)',
                  'the view kinds (view_owned, view, view_mut, as_ref, as_mut, &S, &mut S, Arc<S>, Box<S>) all reduce to (shape, data) in '
                  'the model; that they do is validated by the correspondence run through each of them, not proved',
                  'clear, set, get_mut, SurfaceIter::nth/position/with_position are modelled and compared, without theorems of their own '
